@@ -113,16 +113,62 @@ def predict_id(orig, kw, remove_orig: bool):
     return pid
 
 
-def check_world(rec, d, share, okind, setup):
+def same_id_worlds():
+    """Trees that hold two DISTINCT node objects with one id (legitimate: ASTNode.replace hands the id on, a detached
+    node's id is re-used) and different non-comparable values."""
+    def via_replace():
+        x = DL(1, nc=1)
+        y = x.replace(nc=2)          # keeps x's id; x is stale but alive
+        return DP(items=(x, y, DL(3)))
+
+    def via_detach():
+        x = DL(1, nc=1, origin=zoo.O_A01)
+        x.detach_self()
+        y = DL(1, nc=2, origin=zoo.O_A01)   # same id as the detached x
+        return DP(one=x, items=(y,))
+
+    def nested():
+        x = DP(one=DL(1, nc=1), tag=0)
+        y = x.replace(one=DL(1, nc=9))      # content-equal, other non-comparable value below; may share x's id
+        return DP(items=(x, y))
+
+    return [("same-id-via-replace", via_replace), ("same-id-via-detach", via_detach), ("same-id-nested", nested)]
+
+
+def build_indexed(builder):
+    root = builder()
+    index = {}
+
+    def walk_(n, path):
+        index[path] = n
+        if isinstance(n, DP):
+            if n.one is not None:
+                walk_(n.one, path + (("one", None),))
+            for i, x in enumerate(n.items):
+                walk_(x, path + (("items", i),))
+
+    walk_(root, ())
+    return root, index
+
+
+def check_world(rec, d, share, okind, setup, builder=None):
     reg, twin = setup
     NODE_REGISTRY.clear()
     keep = []
+
+    def make(idx):
+        if builder is not None:
+            r, ix = build_indexed(builder)
+            idx.update(ix)
+            return r
+        return U.build(d, origin=origins_for(okind), index=idx, share=share)
+
     if twin == "twin-before":
-        keep.append(U.build(d, origin=origins_for(okind)))
+        keep.append(make({}))
     index = {}
-    root = U.build(d, origin=origins_for(okind), index=index, share=share)
+    root = make(index)
     if twin == "twin-after":
-        keep.append(U.build(d, origin=origins_for(okind)))
+        keep.append(make({}))
     if reg == "detached":
         root.detach()
     case = {"tree": d, "share": None if not share else [[list(k), list(v)] for k, v in share.items()], "origins": okind, "setup": list(setup)}
@@ -184,11 +230,11 @@ def check_world(rec, d, share, okind, setup):
                 NODE_REGISTRY.clear()
                 keep2 = []
                 if twin == "twin-before":
-                    keep2.append(U.build(d, origin=origins_for(okind)))
+                    keep2.append(make({}))
                 idx2 = {}
-                root2 = U.build(d, origin=origins_for(okind), index=idx2, share=share)
+                root2 = make(idx2)
                 if twin == "twin-after":
-                    keep2.append(U.build(d, origin=origins_for(okind)))
+                    keep2.append(make({}))
                 if reg == "detached":
                     root2.detach()
                 node = idx2[pos]
@@ -262,7 +308,13 @@ def run_shard(cfg):
                             continue
                         rec.rank = idx
                         check_world(rec, d, share, okind, setup)
-    rec.bound = {"max_nodes": cfg["n"], "setups": len(SETUPS)}
+    for j, (name, b) in enumerate(same_id_worlds()):
+        for setup in SETUPS:
+            idx += 1
+            if idx % cfg["of"] == cfg["k"]:
+                rec.rank = 10**7 + idx
+                check_world(rec, ("shaped", name), None, 0, setup, builder=b)
+    rec.bound = {"max_nodes": cfg["n"], "setups": len(SETUPS), "same_id_worlds": len(same_id_worlds())}
     return rec.result()
 
 
@@ -271,5 +323,8 @@ def replay(case, cfg):
     share = None
     if case.get("share"):
         share = {tuple(tuple(s) for s in k): tuple(tuple(s) for s in v) for k, v in case["share"]}
-    check_world(rec, case["tree"], share, int(case["origins"]), tuple(case["setup"]))
+    builder = None
+    if case["tree"][0] == "shaped":
+        builder = dict(same_id_worlds())[case["tree"][1]]
+    check_world(rec, case["tree"], share, int(case["origins"]), tuple(case["setup"]), builder=builder)
     return rec.result()["violations"]
